@@ -78,6 +78,15 @@ def mask_term(case, mask):
     return f"C03.SrcRun.src_mask_check {_cfg(case)} {cz(_scale(case))} {cn(N)} {cn(R)} {ref} {hyp} {obs}"
 
 
+def oc_term(case, out):
+    """the whole body of optimal_completion, interpreted, against the tensor this run's call returned"""
+    N, R, H = _dims(case)
+    ref, hyp = _mat(case["ref"], R, case["batch_first"]), _mat(case["hyp"], H, case["batch_first"])
+    obs = cl([cl([clz(row) for row in plane]) for plane in out["val"]])
+    sh = cl([cn(x) for x in out["shape"]])
+    return f"C03.SrcRun.src_oc_check {_cfg(case)} {cz(_scale(case))} {cn(N)} {ref} {hyp} {sh} {obs}"
+
+
 def source_tie(chk, cases, outs):
     from vlib import CoqError
     idx = [i for i, (c, o) in enumerate(zip(cases, outs)) if _eligible(c, o)]
@@ -94,13 +103,20 @@ def source_tie(chk, cases, outs):
     occ = [_oc_case(cases[i]) for i in idx]
     try:
         terms = [mask_term(c, impl_mask(c)) for c in occ]
-        res = coq_eval_bools(chk.workdir, IMPORTS_SRC, terms, shard=16, tag="src3")
+        # the run's own optimal_completion outputs (plain positional / keyword calls of the function or the module)
+        ocj = [j for j, i in enumerate(idx) if cases[i]["api"] == "oc" and outs[i].get("dtype") == "torch.int64"
+               and len(outs[i].get("shape", ())) == 3]
+        terms += [oc_term(cases[idx[j]], outs[idx[j]]) for j in ocj]
+        res_all = coq_eval_bools(chk.workdir, IMPORTS_SRC, terms, shard=16, tag="src3")
     except (CoqError, Exception) as e:  # noqa: an implementation that no longer accepts the call is reported as not evaluated
         chk.extra["source_tie_run"] = "not evaluated: " + str(e)[-400:]
         return
-    bad = [j for j, ok in enumerate(res) if not ok]
+    res, res_oc = res_all[:len(idx)], res_all[len(idx):]
+    bad_oc = [j for j, ok in zip(ocj, res_oc) if not ok]
+    bad = [j for j, ok in enumerate(res) if not ok] + [j for j in bad_oc]
     chk.extra["source_tie_run"] = {
         "cases": len(idx), "disagreements": len(bad), "wall_s": round(time.time() - t0, 1),
+        "mask_cases": len(idx), "optimal_completion_cases": len(ocj), "optimal_completion_disagreements": len(bad_oc),
         "with_eos": sum(1 for c in occ if c["eos"] is not None),
         "include_eos": sum(1 for c in occ if c["include_eos"]),
         "exclude_last": sum(1 for c in occ if c["exclude_last"]),
@@ -112,10 +128,11 @@ def source_tie(chk, cases, outs):
     if bad:
         j = bad[0]
         chk.report({"case": cases[idx[j]], "impl": outs[idx[j]], "mask_call": occ[j],
-                    "what": "the Python source of _string_matching (return_mask=True) as translated to MiniPy and interpreted "
-                            "in Coq (PV.C03.SrcRun.src_mask_check, torch calls = PV.MiniTorch.OpsC03/OpsC01/OpsC07) does not "
-                            "reproduce the mask the implementation computes: translator / interpreter / ext03 / MiniTorch no "
-                            "longer describe the code",
+                    "what": "the Python source of _string_matching (return_mask=True) / optimal_completion as translated to "
+                            "MiniPy and interpreted in Coq (PV.C03.SrcRun.src_mask_check / src_oc_check, torch calls = "
+                            "PV.MiniTorch.OpsC03/OpsC01/OpsC07) does not reproduce what the implementation computes (the mask "
+                            "of the call optimal_completion makes / the returned targets): translator / interpreter / ext03 / "
+                            "MiniTorch no longer describe the code",
                     "disagreeing_cases": len(bad),
                     "correspondence": "tie:C03:py2coq+MiniPy.Interp+MiniTorch:_string_matching(return_mask)",
                     "theorems_at_stake": SRC_THEOREMS}, no_failing_input=True)
